@@ -21,15 +21,22 @@ Definition run_loop (c : val * list val * kwargs) : J :=
 Definition run_loop_named (c : val * list val * kwargs) : J :=
   let '(arg, pos, kw) := c in J_of (wrapped (f_named bind2 [0%Z; 1%Z]) arg pos kw).
 Definition run_loop_id (arg : val) : J := J_of (wrapped (fun x _ _ => x) arg [] []).
+(* zipper of the values, and lens applied to the raw values (a scalar has no length: 0) *)
+Definition raw_items (v : val) : list val := match v with VList l => l | VTuple l => l | _ => [] end.
 Definition run_zipper (vs : list val) : J :=
-  match zipper vs with
-  | None => JErr "ValueError"
-  | Some rows => JL (map (fun r => JL (map J_of r)) rows)
-  end.
-Definition run_as (c : bool * val) : J :=
-  let '(tup, v) := c in
-  if tup then JL [J_of (as_tuple v); J_of (as_tuple (as_tuple v))]
-  else JL [J_of (as_list v); J_of (as_list (as_list v))].
+  JL [match zipper vs with
+      | None => JErr "ValueError"
+      | Some rows => JL (map (fun r => JL (map J_of r)) rows)
+      end;
+      match lens (map raw_items vs) with
+      | None => JErr "ValueError"
+      | Some n => JZ (Z.of_nat n)
+      end].
+(* as_list / as_tuple (value, none) applied once and twice; none=True keeps a None as [None] *)
+Definition run_as (c : bool * bool * val) : J :=
+  let '(tup, none, v) := c in
+  let f := fun x => if none && is_none x then (if tup then VTuple [x] else VList [x]) else if tup then as_tuple x else as_list x in
+  JL [J_of (f v); J_of (f (f v))].
 (* waiter: structure, result of each future, schedules (orders of completion); per schedule the
    final value and, for every strict prefix of the schedule, whether waiter had already returned *)
 Fixpoint prefixes {A} (l : list A) : list (list A) :=
